@@ -1051,6 +1051,76 @@ func ruleUDecode(c *engine.Context) *report.Rule {
 			}
 		}
 	}
+	// the decoder with an out-parameter: `func(input []byte, out *string) error` that hands out
+	// straight to encoding/json and returns its verdict
+	outDecoders := map[*ssa.Function]int{} // -> index of the out-parameter among Params
+	for _, fn := range p.Funcs {
+		if fn.Blocks == nil || !p.ParsePhase[fn] || p.FuncIsGenerated(fn) || decoders[fn] {
+			continue
+		}
+		res := fn.Signature.Results()
+		if res.Len() != 1 || !isErrorType(res.At(0).Type()) {
+			continue
+		}
+		var ucall *ssa.Call
+		outIdx, ncalls := -1, 0
+		for _, b := range fn.Blocks {
+			for _, ins := range b.Instrs {
+				if call, ok := ins.(*ssa.Call); ok {
+					if sc := call.Call.StaticCallee(); sc != nil && sc.Pkg != nil && sc.Pkg.Pkg.Path() == "encoding/json" && sc.Name() == "Unmarshal" && len(call.Call.Args) == 2 {
+						ncalls++
+						if mi, ok := call.Call.Args[1].(*ssa.MakeInterface); ok {
+							for i, prm := range fn.Params {
+								if mi.X == ssa.Value(prm) {
+									if pt, ok := prm.Type().(*types.Pointer); ok && isStr(pt.Elem()) {
+										outIdx, ucall = i, call
+									}
+								}
+							}
+						}
+					}
+				}
+			}
+		}
+		if outIdx < 0 || ncalls != 1 {
+			continue
+		}
+		r.Instances++
+		ok := true
+		var badAt ssa.Instruction
+		for _, b := range fn.Blocks {
+			for _, ins := range b.Instrs {
+				// nothing else writes the out-parameter
+				if st, isSt := ins.(*ssa.Store); isSt && st.Addr == ssa.Value(fn.Params[outIdx]) {
+					ok, badAt = false, st
+				}
+			}
+			if ret, isRet := b.Instrs[len(b.Instrs)-1].(*ssa.Return); isRet && len(ret.Results) == 1 {
+				ev := ret.Results[0]
+				okErr := ev == ssa.Value(ucall)
+				if cst, isC := ev.(*ssa.Const); isC && cst.IsNil() {
+					for _, dc := range dominatingConds(b) {
+						if bo, isBo := dc.cond.(*ssa.BinOp); isBo && (bo.X == ssa.Value(ucall) || bo.Y == ssa.Value(ucall)) && (isNilConstV(bo.X) || isNilConstV(bo.Y)) {
+							if (bo.Op == token.EQL) == dc.taken {
+								okErr = true
+							}
+						}
+					}
+				}
+				if !okErr {
+					ok, badAt = false, ret
+				}
+			}
+		}
+		r.Oblige(ok)
+		r.Sample("decoder %s fills its out-parameter through encoding/json and returns its verdict: %v", load.FuncName(fn), ok)
+		if !ok {
+			r.Violation("decoder "+load.FuncName(fn)+" overrides the verdict of encoding/json", p.RelPos(badAt.Pos()),
+				"%s writes its out-parameter itself or reports an error that is not encoding/json's own result for the text: member names decoded through it can differ from what the JSON decoder (and therefore the document's own keys) would give", load.FuncName(fn))
+			continue
+		}
+		outDecoders[fn] = outIdx
+	}
 	// without a decoder helper the quote helpers must call encoding/json themselves (checked below:
 	// fewer than two helpers that return decoder output is an open obligation)
 	for fn := range decoders {
@@ -1186,6 +1256,19 @@ func ruleUDecode(c *engine.Context) *report.Rule {
 					if sc := call.Call.StaticCallee(); sc != nil && sc.Pkg != nil && sc.Pkg.Pkg.Path() == "encoding/json" && sc.Name() == "Unmarshal" && len(call.Call.Args) == 2 {
 						if mi, ok := call.Call.Args[1].(*ssa.MakeInterface); ok {
 							if al, ok := mi.X.(*ssa.Alloc); ok && isStr(al.Type().(*types.Pointer).Elem()) {
+								directTarget[al] = call
+							}
+						}
+					}
+				}
+			}
+		}
+		for _, b := range fn.Blocks {
+			for _, ins := range b.Instrs {
+				if call, ok := ins.(*ssa.Call); ok {
+					if sc := call.Call.StaticCallee(); sc != nil {
+						if oi, isOut := outDecoders[sc]; isOut && oi < len(call.Call.Args) {
+							if al, ok := call.Call.Args[oi].(*ssa.Alloc); ok && isStr(al.Type().(*types.Pointer).Elem()) {
 								directTarget[al] = call
 							}
 						}
